@@ -408,9 +408,11 @@ def main(prop, tier='quick', seed=None, replay=None):
             print('KNOWN-FINDING: property=%s %s [%s; %d inputs of this run]' % (prop, f['what'], k, len(known_hit[k])))
     print('%s %s: %d theorems %s, %d cases (%d distinct non-trivial), %d model disagreements, %d oracle failures, %.1fs' % (
         prop, tier, len(thm['theorems']), 'checked' if proof_ok else 'NOT CHECKED', tot_eval, tot_distinct, len(disagreements), len(new_fail), time.time() - t0))
+    rdir = os.path.join(VERIF, 'replays'); os.makedirs(rdir, exist_ok=True)
+    rp = os.path.join(rdir, '%s-%s-%d.json' % (prop, tier, seed))
+    if not verdict and replay_doc is None and os.path.exists(rp):
+        os.remove(rp)
     if verdict:
-        rdir = os.path.join(VERIF, 'replays'); os.makedirs(rdir, exist_ok=True)
-        rp = os.path.join(rdir, '%s-%s-%d.json' % (prop, tier, seed))
         json.dump({'property': prop, 'seed': seed, 'tier': tier, 'kind': verdict, 'reason': reason, 'cases': replay_cases,
                    'theorem_file': mod.THEOREM_FILE, 'proof_ok': proof_ok, 'coq_errors': coq_errors[:2],
                    'replay_cmd': './check %s --replay %s' % (prop, rp)}, open(rp, 'w'), indent=1, default=str)
